@@ -177,6 +177,34 @@ def _fit(case):
         lab = np.asarray(clf.labels)
         if lab.shape != (N,) or not np.issubdtype(lab.dtype, np.integer):
             viol.append((sig("labels-shape"), f"labels {lab.shape} {lab.dtype}"))
+        # the other read-outs of the fitted classifier describe the same projection
+        tol = 1e-4 * S[0]
+        for L in ([0], [N - 1, 0], list(range(0, N, 2)), list(range(N))[::-1]):
+            sub = np.asarray(clf.get_transform(labels=L), dtype=np.float64)
+            if sub.shape != (len(L), nc) or np.abs(sub - tr[L]).max() > tol:
+                viol.append((sig("get_transform(labels)"), f"get_transform(labels={L}) differs from get_transform()[labels] by {np.abs(sub - tr[L]).max() if sub.shape == (len(L), nc) else sub.shape:.3g} (mask {case['mask']}, N={N}, shape {shape})"))
+                break
+        t2 = np.asarray(clf.transform(dstack), dtype=np.float64)
+        if t2.shape != tr.shape or np.abs(t2 - tr).max() > tol:
+            viol.append((sig("transform(input)"), f"transform(images) differs from get_transform() by {np.abs(t2 - tr).max():.3g} (mask {case['mask']})"))
+        if m is not None:
+            t3 = np.asarray(clf.transform(da.from_array((stack * m).astype(np.float32), chunks=dstack.chunks), mask=False), dtype=np.float64)
+            if t3.shape != tr.shape or np.abs(t3 - tr).max() > tol:
+                viol.append((sig("transform(masked,mask=False)"), f"transform(images*mask, mask=False) differs from get_transform() by {np.abs(t3 - tr).max():.3g}"))
+        pr = np.asarray(clf.predict(dstack))
+        if lab.shape == (N,) and (pr.shape != (N,) or not np.array_equal(pr, lab)):
+            viol.append((sig("predict"), f"predict(images) = {pr.tolist()} but labels = {lab.tolist()}"))
+        bases = np.asarray(clf.get_bases())
+        if bases.shape != (nc,) + shape or np.abs(bases.reshape(nc, -1) - comp).max() > 1e-6:
+            viol.append((sig("get_bases"), f"get_bases() shape {bases.shape} / differs from components_"))
+        parts = clf.split_clusters()
+        if lab.shape == (N,):
+            for ci, part in enumerate(parts):
+                want = stack[lab == ci]
+                got = np.asarray(part)
+                if got.shape != want.shape or np.abs(got - want).max() > 0:
+                    viol.append((sig("split_clusters"), f"cluster {ci}: split_clusters() does not hold the images labelled {ci}"))
+                    break
     nontrivial = len(case["rows"]) > 1 or sp != "none" or case["mask"] != "none"
     return {"nontrivial": bool(nontrivial), "outcome": f"fit|{big}|{'viol' if viol else 'ok'}", "viol": viol}
 
